@@ -271,6 +271,10 @@ def main(argv=None):
         seed = int(os.environ.get('VERIF_SEED', '0'))
     except ValueError:
         seed = 0
+    if prop == 'C08':
+        # C08 asks only whether anything panics: the native sweeps and replays ignore results that merely differ from the
+        # executable specification (those are the other properties' hits) and keep going past them
+        os.environ['SWEEP_PANIC_ONLY'] = '1'
     if prop not in PROPS:
         print('unknown or not-applicable property %s' % prop)
         return 2
